@@ -371,6 +371,12 @@ func (c *Ctx) atCall(e *ast.CallExpr, args []Value) {
 	if cs := c.fr.fi.Spec.AtCall[exprText(e.Fun)]; cs != nil {
 		specs = append(specs, cs)
 	}
+	// "at call *.M:" applies to every call of a method (or field callback) named M, whatever the receiver expression is
+	if se, ok := unparen(e.Fun).(*ast.SelectorExpr); ok {
+		if cs := c.fr.fi.Spec.AtCall["*."+se.Sel.Name]; cs != nil {
+			specs = append(specs, cs)
+		}
+	}
 	// "at call f<T>:" applies to the calls of f whose first argument is a T or a *T
 	if len(e.Args) > 0 && c.info != nil {
 		if n := typeName(pointee(c.typeOf(e.Args[0]))); n != "" {
@@ -389,6 +395,9 @@ func (c *Ctx) atCall(e *ast.CallExpr, args []Value) {
 	for i, a := range args {
 		vars[fmt.Sprintf("arg%d", i)] = a
 	}
+	if c.curRecv.Kind != KNone {
+		vars["recv"] = c.curRecv
+	}
 	for _, cs := range specs {
 		for _, a := range cs.Asserts {
 			g := c.specEval(a.Expr, c.st, c.x.entryState(c.fr), vars)
@@ -403,7 +412,9 @@ func (c *Ctx) atCall(e *ast.CallExpr, args []Value) {
 func (c *Ctx) callFunc(o *types.Func, recv Value, args []Value, e *ast.CallExpr) Value {
 	x := c.x
 	o = o.Origin()
+	c.curRecv = recv
 	c.atCall(e, args)
+	c.curRecv = Value{}
 	if fi := x.w.FuncOf(o); fi != nil {
 		// usage contracts: another package may describe this function by an assumed (extern) contract
 		if fi.Pkg != x.pkg {
@@ -607,6 +618,27 @@ func clauseLabel(cl *Clause) string {
 // clause in the contract of the function being verified (check.go), besides the package's run tags.
 const supportTag = "§support"
 
+func byteOrderName(full string) string {
+	if strings.Contains(full, "bigEndian") {
+		return "be32"
+	}
+	return "le32"
+}
+
+// byteOrder32: be32(a) / le32(a) with the fact that the value determines the first four bytes.
+func (x *Exec) byteOrder32(name string, arr *Term) *Term {
+	t := App(name, SInt, arr)
+	a := BVar("a!"+name, arr.Sort)
+	b := BVar("b!"+name, arr.Sort)
+	var same []*Term
+	for i := int64(0); i < 4; i++ {
+		same = append(same, Eq(Select(a, IntLit(i)), Select(b, IntLit(i))))
+	}
+	x.addFact(t, And(Le(IntLit(0), t), Le(t, IntStr("4294967295")),
+		Forall([]*Term{a, b}, Implies(Eq(App(name, SInt, a), App(name, SInt, b)), And(same...)))))
+	return t
+}
+
 func (x *Exec) tagsOr(tags []string, fr *Frame) []string {
 	if len(tags) > 0 {
 		return tags
@@ -683,6 +715,8 @@ func (x *Exec) expandLoc(l string, st *State) []string {
 			return []string{deadlineKey}
 		case "$decoded":
 			return []string{decodedKey}
+		case "$sendattempts":
+			return []string{sendsKey}
 		}
 		panic(engineErr("unknown model location %q", l))
 	}
@@ -1009,8 +1043,24 @@ func (c *Ctx) intrinsic(o *types.Func, recv Value, args []Value, e *ast.CallExpr
 		c.oblige("bounds", exprText(e), Ge(args[0].Len, IntLit(8)), e.Pos())
 		return c.arbitrary("binary.Uint64", rt)
 	case "(encoding/binary.littleEndian).Uint32", "(encoding/binary.bigEndian).Uint32":
+		// the 32-bit value of the first four bytes, in the named byte order: an uninterpreted function of the bytes
+		// that determines them (different first four bytes give different values)
 		c.oblige("bounds", exprText(e), Ge(args[0].Len, IntLit(4)), e.Pos())
-		return c.arbitrary("binary.Uint32", rt)
+		return Scalar(c.x.byteOrder32(byteOrderName(full), args[0].Arr), rt)
+	case "(encoding/binary.littleEndian).PutUint32", "(encoding/binary.bigEndian).PutUint32":
+		// the first four bytes become those whose value is v; the others stay
+		c.oblige("bounds", exprText(e), Ge(args[0].Len, IntLit(4)), e.Pos())
+		b := args[0]
+		na := Fresh("put32.arr", b.Arr.Sort)
+		k := BVar("k!put32", SInt)
+		x.addFact(na, And(Eq(c.x.byteOrder32(byteOrderName(full), na), args[1].S),
+			Forall([]*Term{k}, Implies(Or(Lt(k, IntLit(0)), Ge(k, IntLit(4))), Eq(Select(na, k), Select(b.Arr, k)))),
+			Forall([]*Term{k}, Implies(And(Le(IntLit(0), k), Lt(k, IntLit(4))), And(Le(IntLit(0), Select(na, k)), Le(Select(na, k), IntLit(255)))))))
+		b.Arr = na
+		if !c.spec {
+			c.x.assign(c, e.Args[0], b)
+		}
+		return Value{Kind: KNone}
 	case "(encoding/binary.littleEndian).Uint16", "(encoding/binary.bigEndian).Uint16":
 		c.oblige("bounds", exprText(e), Ge(args[0].Len, IntLit(2)), e.Pos())
 		return c.arbitrary("binary.Uint16", rt)
